@@ -312,6 +312,16 @@ Definition run_case (x : sexp) : sexp :=
         end
       | _ => obs_bad
       end
+    else if op =? "parse-list" then
+      (* (parse-list (order i ...) JSON ...) -> (ok SCHEMA ...) | (err) | (panic) *)
+      match args with
+      | L (Sym _ :: ord) :: js =>
+        match mapM (fun x => match x with Num z => Some (Z.to_N z) | _ => None end) ord, mapM json_of' js with
+        | Some o, Some l => obs_of_res (fun ss => map sexp_of_schema ss) (parse_list run_fuel o l)
+        | _, _ => obs_bad
+        end
+      | _ => obs_bad
+      end
     else if op =? "schema-json" then
       (* (schema-json SCHEMA) -> (ok JSON strict01 PCF SPEC-PCF) *)
       match args with
